@@ -103,6 +103,18 @@ def cases(L, tier, seed):
         ('ra.where', ra.where, dict(mask=R > 4)), ('RaggedArray.flatten', ra.RaggedArray.flatten, dict(self=R)),
         ('ra.partition_list', ra.partition_list, dict(list_to_partition=np.arange(9), partition_lengths=[3, 2, 4])),
     ]
+    # long inputs: blocked / chunked kernels only differ from the small cases beyond their block size
+    Fl = np.array([[rnd.randrange(3), rnd.randrange(3)] for _ in range(8219)])
+    Fl2 = np.array([[rnd.randrange(4), rnd.randrange(2), rnd.randrange(3)] for _ in range(40001)])
+    Xl = np.array([[rnd.uniform(0, 9), rnd.uniform(0, 9), rnd.uniform(0, 9)] for _ in range(9001)])
+    items += [('joint_counts[8219 frames]', MI.joint_counts, dict(X=Fl.copy(), n_x=3)), ('joint_counts[40001 frames]', MI.joint_counts, dict(X=Fl2.copy(), n_x=4)),
+              ('mi_matrix[8219 frames]', (lambda X, n: MI.mutual_information(MI.joint_counts(X, n_x=n))), dict(X=Fl.copy(), n=3)),
+              ('libdist.euclidean[9001 rows]', LD.euclidean, dict(X=Xl.copy(), y=Xl[5].copy())), ('libdist.manhattan[9001 rows]', LD.manhattan, dict(X=Xl.copy(), y=Xl[5].copy())),
+              ('libdist.hamming[8219 rows]', LD.hamming, dict(X=Fl.copy(), y=Fl[0].copy())),
+              ('assigns_to_counts[40001 frames]', TM.assigns_to_counts, dict(assigns=Fl2.T.copy(), lag_time=3)),
+              # index arguments are arguments too: a read / write through index arrays must leave them as they were
+              ('RaggedArray.__getitem__[paired negative indices]', (lambda R_, rows, cols: R_[(rows, cols)]), dict(R_=R, rows=np.array([-1, 0, -2]), cols=np.array([-1, 1, 0]))),
+              ('RaggedArray.__getitem__[rows, slice]', (lambda R_, rows, sl: R_[rows, sl]), dict(R_=R, rows=np.array([2, 0]), sl=slice(0, 2)))]
     for name, fn, args in items:
         yield Deterministic(name), probe(fn), args, (name,)
 
